@@ -263,6 +263,56 @@ func runC11(p *Program, e *Engine, r *Result, tier string) {
 	if nRing == 0 {
 		a.R.fail("no write to the ring reachable from the translator (vacuous)")
 	}
+	// the translator's MOVED_FROM store is the only writer of the ring: any other store (clearing slots on Remove, say)
+	// can forget a pending move before its second half arrives
+	checked := map[ssa.Instruction]bool{}
+	for _, v := range w.Visits {
+		if st, ok := v.Instr.(*ssa.Store); ok {
+			if ia, ok := st.Addr.(*ssa.IndexAddr); ok && (v.Ctx.fieldOfValue(ia.X) == ringF || fieldOf(ia.X) == ringF) {
+				checked[st] = true
+			}
+		}
+	}
+	var others []string
+	nWriters := 0
+	for _, fn := range a.P.srcFuncs(a.P.Main) {
+		for _, b := range fn.Blocks {
+			for _, in := range b.Instrs {
+				st, ok := in.(*ssa.Store)
+				if !ok {
+					continue
+				}
+				// address inside the ring: ring[i], ring[i].f, or the ring field as a whole
+				addr := st.Addr
+				hit := false
+				for i := 0; i < 4 && !hit; i++ {
+					switch x := addr.(type) {
+					case *ssa.IndexAddr:
+						if fieldOf(x.X) == ringF {
+							hit = true
+						}
+						addr = x.X
+					case *ssa.FieldAddr:
+						if fieldOf(x) == ringF {
+							hit = true
+						}
+						addr = x.X
+					default:
+						i = 4
+					}
+				}
+				if !hit {
+					continue
+				}
+				nWriters++
+				if !checked[st] {
+					others = append(others, a.P.instrPos(st)+" in "+shortFn(fn))
+				}
+			}
+		}
+	}
+	a.R.ob("C11.2", "ring-write:only-writer", "the ring is written nowhere but by the translator's store for IN_MOVED_FROM (no other code can drop or alter a pending move)", "-", len(others) == 0 && nWriters >= 1,
+		sprintf("%d store(s) into the ring in non-test code; outside the translator's store: %s", nWriters, fmtList(others)))
 	// ring accesses under the lock
 	for _, v := range w.Visits {
 		if fa, ok := v.Instr.(*ssa.FieldAddr); ok && fieldOf(fa) == ringF {
